@@ -1,6 +1,7 @@
 package main
 
 import (
+	"bufio"
 	"hash/fnv"
 	"runtime"
 	"sort"
@@ -253,19 +254,30 @@ func batchFirst(fr *FuncResult, dir string, perQueryMs int) {
 	defer cancel()
 	t0 := time.Now()
 	cmd := exec.CommandContext(ctx, "z3-new", "-t:"+fmt.Sprint(perQueryMs), file)
-	var out bytes.Buffer
-	cmd.Stdout = &out
-	cmd.Stderr = &out
-	_ = cmd.Run()
+	// answers are read as they come: after 20 goals that the incremental pass did not prove the function is broken (or
+	// the pass is useless for it) and the remaining goals are left to the races, which give up early as well
+	var answers []string
+	if pipe, err := cmd.StdoutPipe(); err == nil && cmd.Start() == nil {
+		sc := bufio.NewScanner(pipe)
+		sc.Buffer(make([]byte, 1<<20), 1<<20)
+		open := 0
+		for sc.Scan() {
+			l := strings.TrimSpace(sc.Text())
+			if l == "sat" || l == "unsat" || l == "unknown" || l == "timeout" {
+				answers = append(answers, l)
+				if l != "unsat" {
+					open++
+					if open >= 20 {
+						cancel()
+						break
+					}
+				}
+			}
+		}
+		_ = cmd.Wait()
+	}
 	<-cpuSem
 	dt := time.Since(t0).Seconds()
-	var answers []string
-	for _, l := range strings.Split(out.String(), "\n") {
-		l = strings.TrimSpace(l)
-		if l == "sat" || l == "unsat" || l == "unknown" || l == "timeout" {
-			answers = append(answers, l)
-		}
-	}
 	i := 0
 	done = 0
 	for _, o := range fr.Obls {
